@@ -141,6 +141,7 @@ pub trait HInput<'a>: Input<'a, Token: HTok, Span: HSpan> + Sized + 'a {
     // ----- primitives that need `ValueInput` -----
     fn any<E: HErr<'a, Self>>() -> Res<P<'a, Self, E>>;
     fn skip<E: HErr<'a, Self>>(n: usize) -> Res<P<'a, Self, E>>;
+    fn nested_delims<E: HErr<'a, Self>>(cv: &Self::Conv, s: u32, e: u32, others: &[(u32, u32)]) -> Res<P<'a, Self, E>>;
     fn one_of<E: HErr<'a, Self>>(ts: &[u32]) -> Res<P<'a, Self, E>>;
     fn none_of<E: HErr<'a, Self>>(ts: &[u32]) -> Res<P<'a, Self, E>>;
     fn select<E: HErr<'a, Self>>(p: Pred, f: Fn1) -> Res<P<'a, Self, E>>;
@@ -190,6 +191,9 @@ macro_rules! value_impl {
         fn skip<E: HErr<'a, Self>>(n: usize) -> Res<P<'a, Self, E>> {
             Ok(build::v_skip(n))
         }
+        fn nested_delims<E: HErr<'a, Self>>(cv: &Self::Conv, s: u32, e: u32, others: &[(u32, u32)]) -> Res<P<'a, Self, E>> {
+            build::v_nested_delims(cv, s, e, others)
+        }
         fn select<E: HErr<'a, Self>>(p: Pred, f: Fn1) -> Res<P<'a, Self, E>> {
             Ok(build::v_select(p, f))
         }
@@ -221,6 +225,9 @@ macro_rules! value_impl {
         }
         fn skip<E: HErr<'a, Self>>(_n: usize) -> Res<P<'a, Self, E>> {
             build::unsupported("Skip: input kind is not a ValueInput")
+        }
+        fn nested_delims<E: HErr<'a, Self>>(_cv: &Self::Conv, _s: u32, _e: u32, _o: &[(u32, u32)]) -> Res<P<'a, Self, E>> {
+            build::unsupported("NestedDelims: input kind is not a ValueInput")
         }
         fn select<E: HErr<'a, Self>>(_p: Pred, _f: Fn1) -> Res<P<'a, Self, E>> {
             build::unsupported("Select: input kind is not a ValueInput")
